@@ -48,9 +48,13 @@ def build_harness():
             raise ToolError("spec/KeyOrder.tla %s does not match the harness universe" % name)
 
 
+INTERLEAVED = {"compile"}   # commands whose expensive cases cluster at the end of the case file
+
+
 def run_harness(cmd, cases, out, extra=(), timeout=3600, env_extra=None, par=12):
-    """run `msverif <cmd>` over the cases; large case files are split into contiguous chunks that run
-    in parallel (cases are independent of each other) and the outputs are concatenated in order"""
+    """run `msverif <cmd>` over the cases; large case files are split into contiguous (or, for the
+    commands of INTERLEAVED, strided) chunks that run in parallel (cases are independent of each
+    other) and the outputs are concatenated"""
     t = time.time()
     env = dict(os.environ)
     if env_extra:
@@ -69,7 +73,7 @@ def run_harness(cmd, cases, out, extra=(), timeout=3600, env_extra=None, par=12)
     size = (len(lines) + k - 1) // k
     procs = []
     for q in range(k):
-        part = lines[q * size:(q + 1) * size]
+        part = lines[q::k] if cmd in INTERLEAVED else lines[q * size:(q + 1) * size]
         if not part:
             continue
         cin, cout = "%s.part%d" % (cases, q), "%s.part%d" % (out, q)
